@@ -496,6 +496,17 @@ def do_pairing_search(req):
 
     def trial(stream):
         return do_pairing_case({'stream': stream})
+    # long windows first: one START, many nested same-thread records, the END
+    for inner in (50, 300, 1100, 5000):
+        st = [(11, codes[0], 1)] + [(11, codes[2], 0)] * inner + [(11, codes[0], 2)]
+        tried += 1
+        r = trial(st)
+        if r['violates']:
+            r.pop('expected', None)
+            r.pop('got', None)
+            r['what'] = 'a window of one START, %d nested same-thread records and the END: %s' % (inner, r['what'][:300])
+            r['request'] = {'kind': 'pairing_case', 'stream': [list(x) for x in st]}
+            return {'tried': tried, 'bound': 'long windows (50..5000 nested records)', 'found': r}
     for n in range(1, 4):
         for st in itertools.product(alpha, repeat=n):
             tried += 1
